@@ -1,0 +1,15 @@
+//go:build verif
+
+package mozilla
+
+// Verification hooks for property C15 (build tag verif): exported wrappers only, no behaviour of their own.
+
+// ZVDecodePkixName runs decodePkixName (base64, then ASN.1 RDNSequence) and returns Name.String(), the raw DER
+// bytes and whether it succeeded.
+func ZVDecodePkixName(name string) (str string, raw []byte, ok bool) {
+	n, raw, err := decodePkixName(name)
+	if err != nil || n == nil {
+		return "", nil, false
+	}
+	return n.String(), raw, true
+}
